@@ -36,7 +36,7 @@ class Loop:
   """Loop contract, keyed by the loop's ordinal within the function (source order)."""
 
   def __init__(self, inv, index=None, seq=None, decreases=None, note='',
-               ghost_init=(), ghost_end=(), lemmas=()):
+               ghost_init=(), ghost_end=(), lemmas=(), havoc=()):
     self.inv = [inv] if isinstance(inv, str) else list(inv)
     self.index = index    # name of the ghost iteration index
     self.seq = seq        # name of the ghost sequence being iterated
@@ -44,6 +44,7 @@ class Loop:
     self.ghost_init = list(ghost_init)  # ghost assignments 'name = expr' run before the loop
     self.ghost_end = list(ghost_end)    # ghost assignments run at the end of every iteration
     self.lemmas = list(lemmas)          # asserted (then assumed) at the end of an iteration
+    self.havoc = list(havoc)            # further names havocked at the loop head (values the model does not track)
 
 
 class Contract:
